@@ -123,24 +123,26 @@ CHECKS = {
 
 # rules added after the first plan (DESIGN.md section 11.2 lists every rule with its text as implemented)
 ADDED = {
- 'C19': ' Third round: batch item fields that failure responses omit are dereferenced only after the SUCCESS test or under a None test (R7). Fourth round: explicitly tagged request values carry the tag the request readers expect (R8).',
- 'C17': ' Third round: the common-name list is the complete list of commonName attributes of the whole subject (R4 all-common-names).',
- 'C08': ' Third round: executed results are withheld only for the size limit of that very request (R7, lifted from C12.R5).',
- 'C01': ' Added: BigInteger padding leaves room for the sign bit for every bit length (R3 sign-room); no constructor default shares a mutable container that decoders fill in place (R6). Third round: no encodable class overrides truthiness, because presence of fields is decided by `if self._field:` (R7). Fourth round: primitive decoders store the value they read, no normalisation (R8); the padding count kept after decoding is in 0..7 (R3; the unsound exemption for a skip-only guard was removed and the TextString reader repaired in /repo).',
- 'C02': ' Added: TextString/ByteString writers emit exactly len(value) value bytes, one struct-packed byte per counted element, then padding_length zero bytes (R6). Third round: BigInteger two\'s-complement sign room (R7, shared with C01.R3). Fourth round: padding count after decoding in 0..7 (R8, lifted from C01.R3).',
- 'C03': ' Added: the policy parser allocates each per-type/per-section table inside the iteration that fills and stores it (R10). Fourth round: a try around an access-controlled load answers denied and absent in the same arm (R11).',
- 'C04': ' Added: a stored object whose value is used as derivation data is gated like the keying object (R3 derive_key.derivation_data). Fourth round: lifecycle changes are committed before the handler returns (R5, lifted from C09.R2).',
- 'C05': ' Added: attribute rows fetched from the store are never linked into a second object (R6); only Activate/Revoke/Destroy and the attribute operations modify a loaded instance (R7). Third round: no truthiness filter on stored values in the conversion chain (R8). Fourth round: numeric columns use exact integer types (R9).',
- 'C06': ' Added: an object built from derivation output cannot hold more than the requested length (R6); every return of the symmetric cipher helpers passes finalize(), AAD is authenticated whenever given (R7). Fourth round: key material of a loaded object is never overwritten by read-only handlers (R8, lifted from C05.R7).',
- 'C07': ' Added: every query by unique identifier compares the column with the identifier exactly as received (R6). Fourth round: Destroy issues its delete only after every refusal (R7, lifted from C08.R3).',
+ 'C11': ' Fifth round: set.add counts as in-place mutation of a transient field; prologue and readers share one critical section (R2, lifted from C10).',
+ 'C10': ' Fifth round: R3 (no shared module state) also covers the authentication helpers that run on session threads.',
+ 'C19': ' Third round: batch item fields that failure responses omit are dereferenced only after the SUCCESS test or under a None test (R7). Fourth round: explicitly tagged request values carry the tag the request readers expect (R8). Fifth round: converters hand back everything a response carried (R9, lifted from C05.R11).',
+ 'C17': ' Third round: the common-name list is the complete list of commonName attributes of the whole subject (R4 all-common-names). Fifth round: SLUGS connector - each 404 test looks at the response of its own lookup, groups come from that response, no except arm completes normally (R4).',
+ 'C08': ' Third round: executed results are withheld only for the size limit of that very request (R7, lifted from C12.R5). Fifth round: column converters never raise (R8, lifted from C05.R3).',
+ 'C01': ' Added: BigInteger padding leaves room for the sign bit for every bit length (R3 sign-room); no constructor default shares a mutable container that decoders fill in place (R6). Third round: no encodable class overrides truthiness, because presence of fields is decided by `if self._field:` (R7). Fourth round: primitive decoders store the value they read, no normalisation (R8); the padding count kept after decoding is in 0..7 (R3; the unsound exemption for a skip-only guard was removed and the TextString reader repaired in /repo). Fifth round: reader and writer nest presence conditions alike (R2 nested); early returns under a version test are understood by the schema extractor.',
+ 'C02': ' Added: TextString/ByteString writers emit exactly len(value) value bytes, one struct-packed byte per counted element, then padding_length zero bytes (R6). Third round: BigInteger two\'s-complement sign room (R7, shared with C01.R3). Fourth round: padding count after decoding in 0..7 (R8, lifted from C01.R3). Fifth round: KMIP error texts cannot be empty - literals, or reviewed foreign-exception sites (R9).',
+ 'C03': ' Added: the policy parser allocates each per-type/per-section table inside the iteration that fills and stores it (R10). Fourth round: a try around an access-controlled load answers denied and absent in the same arm (R11). Fifth round: the policy table the decisions read is kept in step with the files (R12, lifted from C18.R5-R10).',
+ 'C04': ' Added: a stored object whose value is used as derivation data is gated like the keying object (R3 derive_key.derivation_data). Fourth round: lifecycle changes are committed before the handler returns (R5, lifted from C09.R2). Fifth round: the usage mask the guards test is exactly the stored one (R6, lifted from C05.R3).',
+ 'C05': ' Added: attribute rows fetched from the store are never linked into a second object (R6); only Activate/Revoke/Destroy and the attribute operations modify a loaded instance (R7). Third round: no truthiness filter on stored values in the conversion chain (R8). Fourth round: numeric columns use exact integer types (R9). Fifth round: column converters are total and decode exactly the stored mask bits (R3); flag sets are OR-ed, never summed (R10); converters use everything they extract on every path (R11).',
+ 'C06': ' Added: an object built from derivation output cannot hold more than the requested length (R6); every return of the symmetric cipher helpers passes finalize(), AAD is authenticated whenever given (R7). Fourth round: key material of a loaded object is never overwritten by read-only handlers (R8, lifted from C05.R7). Fifth round: reader and writer of the cryptographic payloads agree (R9, lifted from C01.R1/R2).',
+ 'C07': ' Added: every query by unique identifier compares the column with the identifier exactly as received (R6). Fourth round: Destroy issues its delete only after every refusal (R7, lifted from C08.R3). Fifth round: requests run one at a time under the engine lock (R8, lifted from C10.R1/R2).',
  'C09': ' Added: nothing in the package takes the database connection out of transactional mode (R4). Third round: nobody but SQLite deletes/renames/truncates files (R5). Fourth round: the session factory is bound to the create_engine result and the engine opens no connections of its own (R3).',
- 'C12': ' Added: every primitive stream read is checked for shortness (R7). Third round: the arms handling a failed decode never read the half-decoded request (R8). Fourth round: decoded values echoed into responses re-encode to well-formed TTLV (R9, lifted from C01.R3).',
- 'C13': ' Added: identifiers kept in the placeholder or given to response payloads are strings on every path (R5); the policy queries test and look up the very name they are given (R2 tests-the-given-name). Fourth round: identifier reuse (which would collide with orphan subclass rows and end in General Failure) is excluded by AUTOINCREMENT (R6, lifted from C07.R1).',
- 'C14': ' Added: the lister includes an object only on the allowed edge of the decision taken for that object in the same iteration (R6). Third round: date bounds are tested for presence with None tests only (R7). Fourth round: the candidate loop runs to the end, no early break/return (R8).',
- 'C15': ' Added: a row taken from the store is never attached to another object (R6). Third round: no failure exit of the three attribute operations is reached with a modified object (R4). Fourth round: rows of id-ordered relationships are modified in place, never replaced by index (R7).',
- 'C16': ' Added: the six ProtocolVersion comparison operators, evaluated over the nine sign combinations of (major, minor), are the lexicographic order (R9).',
- 'C18': ' Added: no snapshot of the policy structures is carried across iterations of a loop that updates them (R6, a loop-carried staleness rule; straight-line staleness and general history semantics remain undecided); enum/table lookups keyed by document data convert KeyError/TypeError to ValueError (R2). Third round: no monitor structure is modified while being iterated (R7). Fourth round: restore_or_delete_policy is preceded by the disassociation of the file (R8).',
- 'C20': ' Added: codec-layer exception texts never format a field that can render key material (R4); no handler stores a secret-bearing value into an engine field such as the ID placeholder (R5). Third round: locals into which a message is encoded are secret sources (their str/format is the hex of the buffer).',
+ 'C12': ' Added: every primitive stream read is checked for shortness (R7). Third round: the arms handling a failed decode never read the half-decoded request (R8). Fourth round: decoded values echoed into responses re-encode to well-formed TTLV (R9, lifted from C01.R3). Fifth round: every failed item can be encoded (R10, shared with C02.R9).',
+ 'C13': ' Added: identifiers kept in the placeholder or given to response payloads are strings on every path (R5); the policy queries test and look up the very name they are given (R2 tests-the-given-name). Fourth round: identifier reuse (which would collide with orphan subclass rows and end in General Failure) is excluded by AUTOINCREMENT (R6, lifted from C07.R1). Fifth round: converters never raise (R7, lifted); the schema adds no uniqueness/check constraints (R8).',
+ 'C14': ' Added: the lister includes an object only on the allowed edge of the decision taken for that object in the same iteration (R6). Third round: date bounds are tested for presence with None tests only (R7). Fourth round: the candidate loop runs to the end, no early break/return (R8). Fifth round: an attribute a stored class carries is declared applicable to that type (R9).',
+ 'C15': ' Added: a row taken from the store is never attached to another object (R6). Third round: no failure exit of the three attribute operations is reached with a modified object (R4). Fourth round: rows of id-ordered relationships are modified in place, never replaced by index (R7). Fifth round: no-value-given is decided by None where the value can be a plain string (R8).',
+ 'C16': ' Added: the six ProtocolVersion comparison operators, evaluated over the nine sign combinations of (major, minor), are the lexicographic order (R9). Fifth round: version-dependent readers end with the trailing-data check on every path (R10; LocateRequestPayload repaired in /repo).',
+ 'C18': ' Added: no snapshot of the policy structures is carried across iterations of a loop that updates them (R6, a loop-carried staleness rule; straight-line staleness and general history semantics remain undecided); enum/table lookups keyed by document data convert KeyError/TypeError to ValueError (R2). Third round: no monitor structure is modified while being iterated (R7). Fourth round: restore_or_delete_policy is preceded by the disassociation of the file (R8). Fifth round: a reloaded file drops the shadowed definitions it no longer provides (R9; repaired in /repo); the engine consults the store on every decision (R10).',
+ 'C20': ' Added: codec-layer exception texts never format a field that can render key material (R4); no handler stores a secret-bearing value into an engine field such as the ID placeholder (R5). Third round: locals into which a message is encoded are secret sources (their str/format is the hex of the buffer). Fifth round: exceptions raised by reviewed input-quoting third-party calls (ConfigParser.get) are secret-bearing.',
 }
 
 NOT_YET = 'check not built yet in this session (rules designed in DESIGN.md section 4); will be claimed once its check exists and is silent on the unchanged tree'
